@@ -30,7 +30,7 @@ def call_tags(events, timed_out=False, with_index=False):
     n = len(events)
     for idx, (kind, what) in enumerate(events):
         tags.cur = idx
-        if kind == 'sleep':
+        if kind in ('sleep', 'sync'):
             continue
         if kind == 'file':
             if what in ('makedirs', 'write', 'read', 'removedirs', 'rmdir'):
@@ -55,7 +55,7 @@ def call_tags(events, timed_out=False, with_index=False):
         if what == 'BEGIN':
             # busy iff the same call issues another BEGIN before any other statement, or times out here
             nxt = [w for (k, w) in events[idx + 1:] if k == 'sql']
-            rest = [(k, w) for (k, w) in events[idx + 1:] if k != 'sleep']
+            rest = [(k, w) for (k, w) in events[idx + 1:] if k not in ('sleep', 'sync')]
             busy = (nxt[:1] == ['BEGIN']) or (timed_out and not nxt)
             tags.append('TBeginBusy' if busy else 'TBegin')
             in_txn = not busy
